@@ -140,12 +140,13 @@ pub struct RunOut {
     pub files: BTreeMap<String, Vec<u8>>,
     pub log: Vec<LogLine>,
     pub shim_loaded: bool,
+    pub root: String,
 }
 
 impl RunOut {
     pub fn identity(&self) -> String {
         let mut s = format!("exit={:?} sig={:?}\n", self.exit, self.signal);
-        s.push_str(&crate::util::sha256_hex(&self.stdout));
+        s.push_str(&crate::util::sha256_hex(String::from_utf8_lossy(&self.stdout).replace(&self.root, "<ROOT>").as_bytes()));
         s.push('\n');
         s.push_str(&self.stderr);
         for (k, v) in &self.files {
@@ -230,7 +231,16 @@ pub fn materialise(world: &World) -> PathBuf {
             Entry::Dir => {
                 let _ = std::fs::create_dir_all(&full);
             }
-            Entry::File(b) => std::fs::write(&full, b).expect("harness: cannot write tree file"),
+            Entry::File(b) => {
+                // files may spell the (per-thread) scratch root as <ROOT>
+                let root_s = root.to_string_lossy();
+                if b.windows(6).any(|w| w == b"<ROOT>") {
+                    let text = String::from_utf8_lossy(b).replace("<ROOT>", &root_s);
+                    std::fs::write(&full, text.as_bytes()).expect("harness: cannot write tree file")
+                } else {
+                    std::fs::write(&full, b).expect("harness: cannot write tree file")
+                }
+            }
             Entry::Symlink(to) => {
                 let _ = std::os::unix::fs::symlink(to, &full);
             }
@@ -297,6 +307,7 @@ pub fn run_world(world: &World, plan: &[Rule]) -> RunOut {
     cmd.env("VERIF_SHIM_LOG", &log_path);
     match &world.stdin {
         Some(data) => {
+            let data = if data.windows(6).any(|w| w == b"<ROOT>") { String::from_utf8_lossy(data).replace("<ROOT>", &root_s).into_bytes() } else { data.clone() };
             std::fs::write(&stdin_path, data).expect("harness: cannot write stdin");
             cmd.stdin(Stdio::from(std::fs::File::open(&stdin_path).expect("harness: stdin")));
         }
@@ -355,6 +366,7 @@ pub fn run_world(world: &World, plan: &[Rule]) -> RunOut {
     use std::os::unix::process::ExitStatusExt as _;
     let mut out = RunOut { exit: status.code(), signal: status.signal(), timed_out, ..Default::default() };
     out.stdout = std::fs::read(&out_path).unwrap_or_default();
+    out.root = root_s.clone();
     let mut err = Vec::new();
     if let Ok(mut f) = std::fs::File::open(&err_path) {
         let _ = f.read_to_end(&mut err);
